@@ -586,6 +586,7 @@ func (e *Exec) invoke(st *State, instr ssa.Instruction, cc *ssa.CallCommon, recv
 	}
 	m := cc.Method.Name()
 	e.nopanic(st, "nilinvoke", instr, tNot(tEq(recv.T[0], "0")))
+	st.counts["invoke:"+m]++
 	key := "if:" + in + "." + m
 	if fc := e.cs.Funcs[key]; fc != nil {
 		scope := append([]Val{recv}, args...)
@@ -598,6 +599,10 @@ func (e *Exec) invoke(st *State, instr ssa.Instruction, cc *ssa.CallCommon, recv
 	case m == "Done" && (in == "context.Context"):
 		ch := app(e.fun("ctx_done", []string{SInt}, SInt), recv.T[1])
 		ret(Val{T: []string{ch}})
+		return
+	case m == "Deadline" && in == "context.Context":
+		// pure: some instant and whether there is one
+		ret(e.freshVal("ctxdeadline", resType))
 		return
 	case m == "Err" && in == "context.Context":
 		ch := app(e.fun("ctx_done", []string{SInt}, SInt), recv.T[1])
